@@ -655,8 +655,9 @@ def oracle(sq, impl_lines):
                         if T[nid] & Tf[nid]:
                             probs.append(("simple-flag", "node %d is flagged free of internal surfaces but stays true when face %d flips" % (nid, f), k))
                             break
-        except Bad as e:
-            probs.append(("malformed", "%s after %r" % (e, op), k))
+        except (Bad, AttributeError, ValueError, IndexError, AssertionError, KeyError, TypeError) as e:
+            # the implementation printed something that cannot be interpreted for this op
+            probs.append(("malformed", "%s: %s after %r" % (type(e).__name__, e, op), k))
             break
     return probs
 
@@ -835,11 +836,37 @@ def run_harness_seqs(ctx, exe, seqs):
     return results
 
 
+def compile_parallel(ctx, srcs, exe, libs):
+    """like ctx.compile_harness, but one g++ -c per translation unit, in parallel"""
+    import time
+    from concurrent.futures import ThreadPoolExecutor
+    fl, ld = ctx.cxx_flags(libs)
+    objdir = os.path.join(ctx.work, "obj")
+    os.makedirs(objdir, exist_ok=True)
+    t0 = time.time()
+
+    def one(src):
+        obj = os.path.join(objdir, os.path.basename(src) + ".o")
+        rc, out = vlib.sh(["g++"] + fl + ["-c", src, "-o", obj], timeout=900)
+        return rc, out, obj
+    with ThreadPoolExecutor(max_workers=len(srcs)) as ex:
+        res = list(ex.map(one, srcs))
+    for rc, out, obj in res:
+        if rc != 0:
+            raise vlib.BuildError("harness compile failed: " + obj, out[-4000:])
+    out_exe = os.path.join(ctx.work, exe)
+    rc, out = vlib.sh(["g++"] + [o for _, _, o in res] + ["-o", out_exe, "-fopenmp"] + ld, timeout=900)
+    ctx.log("compiled %s (%d translation units): rc=%d in %.1fs" % (exe, len(srcs), rc, time.time() - t0))
+    if rc != 0:
+        raise vlib.BuildError("harness link failed: " + exe, out[-4000:])
+    return out_exe
+
+
 def run(ctx):
     quick = ctx.tier == "quick"
-    nseq = 2200 if quick else 60000
-    ndeep = 24 if quick else 400
-    ntok = 3000 if quick else 60000
+    nseq = 2200 if quick else 25000
+    ndeep = 24 if quick else 200
+    ntok = 3000 if quick else 40000
     r = ctx.rng
     ctx.trusted += [
         "hand-written Gallina model coq/C10/{Csg,Logic,DeMorgan}.v tied to liborange by the exact op-sequence differential (props/C10/run.py, harness/csg.cc, driver.ml)",
@@ -880,8 +907,8 @@ def run(ctx):
         "CsgTree.cc", "CsgTypes.cc", "CsgTreeUtils.cc", "detail/NodeSimplifier.cc",
         "detail/DeMorganSimplifier.cc", "detail/PostfixLogicBuilder.cc",
         "detail/InternalSurfaceFlagger.cc", "detail/SenseEvaluator.cc")]
-    exe = ctx.compile_harness([os.path.join(HERE, "harness", "csg.cc")] + anchored, "csg",
-                              libs=["orange", "geocel", "corecel"])
+    exe = compile_parallel(ctx, [os.path.join(HERE, "harness", "csg.cc")] + anchored, "csg",
+                           ["orange", "geocel", "corecel"])
 
     # ---- generate sequences with the model in the loop --------------------
     rc, wout = ctx.run_harness(exe, ["width"])
@@ -926,11 +953,14 @@ def run(ctx):
         expected = [l for ls in sq.exp for l in ls if not l.startswith("q ") and not l.startswith("c ")]
         if sq.tag.startswith("witness:"):
             wid = sq.tag.split(":")[1]
-            if wid == "R1":
-                nodes_w, _ = parse_tree_line([l for l in impl if l.startswith("t ")][-1])
-                rep_ok = not topo_sorted(nodes_w)
-            else:
-                rep_ok = impl[-1] == "g 0" and impl[-2].startswith("s !all(")
+            try:
+                if wid == "R1":
+                    nodes_w, _ = parse_tree_line([l for l in impl if l.startswith("t ")][-1])
+                    rep_ok = not topo_sorted(nodes_w)
+                else:
+                    rep_ok = impl[-1] == "g 0" and impl[-2].startswith("s !all(")
+            except Exception:
+                rep_ok = False
             ctx.count("witness-%s-%s" % (wid, "reproduced-on-real-code" if rep_ok else "NOT-reproduced"))
             if not rep_ok:
                 ctx.notes.append("refutation witness %s no longer reproduces on the code: the _refuted theorem and NOTES.md need an update" % wid)
